@@ -26,6 +26,26 @@ THEOREMS += ["PyOak.C05X." + t for t in [
     "post_perm_pre", "bfs_perm_pre", "pre_filter", "post_filter", "bfs_filter", "dfsImpl_filter", "bfsImpl_filter",
     "preN_pruned", "postN_pruned", "mem_dfsImpl_iff", "mem_bfsImpl_iff", "pre_sublist_noprune",
     "pruned_descendants_not_visited_impl", "dfsImpl_keys_nodup", "bfsImpl_keys_nodup", "all_orders_length"]]
+# q6: paths / depth / lookup forms (Spec/Traverse.lean, Props/C05Trails|Depth|Paths|Lookup.lean)
+THEOREMS += ["PyOak.C05T." + t for t in [
+    "trails_end", "trails_prune", "mem_trails_noprune", "mem_trails_iff", "dfs_eq_trails", "dfs_noprune_eq_trails",
+    "gather_spec", "gather_noprune", "gather_eq_trails", "mem_dfsImpl_iff_trail", "mem_bfsImpl_iff_trail",
+    "yielded_has_unpruned_trail", "level_iff_trail"]]
+THEOREMS += ["PyOak.C05D." + t for t in [
+    "trail_iff_chain", "level_iff_depth", "bfs_level_sorted", "bfs_depth_sorted_chain", "bfs_depth_sorted",
+    "bfs_concat_depth"]]
+THEOREMS += ["PyOak.C05P." + t for t in [
+    "mem_paths_iff", "trail_inj", "paths_sorted", "pathLt_irrefl", "paths_nodup", "paths_length",
+    "dfs_enumerates_paths", "dfs_pruned_paths"]]
+THEOREMS += ["PyOak.C05P." + t for t in [
+    "trailsPost_perm", "trailsPost_end", "dfs_bottom_up_eq_trails", "mem_trailsPost_iff", "postPaths_sorted",
+    "pathLtPost_irrefl", "dfs_bottom_up_enumerates_paths",
+    "levelTrails_end", "mem_levelTrails_iff", "mem_bfsTrails_iff", "bfs_eq_trails", "levelPaths_sorted",
+    "bfsPaths_sorted", "shortLex_irrefl", "bfs_enumerates_paths", "bfs_pruned_paths"]]
+THEOREMS += ["PyOak.C05L." + t for t in [
+    "mem_edges_iff_stored", "dfs_yield_lookup", "bfs_yield_lookup", "gather_yield_lookup", "yield_lookup_wfn",
+    "stored_getField", "kidsOK_iff", "wellKeyed_of_fieldsOK", "wellKeyed_of_wfn", "dfs_enumerates_paths_wfn",
+    "path_iff_trail"]]
 RULE = ("seeded zoo trees (single/optional/union/variadic/fixed-tuple child fields, inherited fields, shared "
         "objects, falsy children, tuples of length 11-14) x prune/filter predicates given as subsets of positions; "
         "thorough additionally enumerates all prune x filter subsets for trees with <= 4 positions; "
